@@ -159,6 +159,12 @@ type Violation struct {
 	Detail string          `json:"detail"`
 	Case   json.RawMessage `json:"case"`
 	Count  int             `json:"count"`
+	Shard  int             `json:"shard"`
+	Pass   string          `json:"pass"`
+	// NeedsHistory: the case does not fail alone in a fresh process but fails, deterministically, when the
+	// worker shard that found it is re-run up to it (it depends on what the preceding cases left behind
+	// in the library's process-wide state).
+	NeedsHistory bool `json:"needs_history,omitempty"`
 }
 
 type Result struct {
@@ -490,6 +496,10 @@ func doCheck(id, tier string, keep bool) int {
 	if spec.testMode && tier == "thorough" {
 		passes = append(passes, pass{bins[0], true, "testmode"})
 	}
+	passByName := map[string]pass{}
+	for _, p := range passes {
+		passByName[p.pass] = p
+	}
 	var results []*Result
 	var mu sync.Mutex
 	var wg sync.WaitGroup
@@ -620,6 +630,7 @@ func doCheck(id, tier string, keep bool) int {
 	})
 	var confirmed []*Violation
 	unrepro := 0
+	histTried := 0
 	maxConfirm := 12
 	for i, s := range sigs {
 		v := vios[s]
@@ -634,6 +645,37 @@ func doCheck(id, tier string, keep bool) int {
 			if err != nil || !got.Violated || got.Sig != v.Sig {
 				okAll = false
 				break
+			}
+		}
+		if !okAll && histTried < 4 {
+			// history replay: re-run the shard that found it, twice, in fresh processes, until the signature shows up
+			histTried++
+			if p, ok := passByName[v.Pass]; ok {
+				okHist := true
+				for k := 0; k < 2 && okHist; k++ {
+					idx++
+					env := []string{"VERIF_PASS=" + p.pass, "VERIF_BIN=" + p.bin}
+					if spec.gomax1 {
+						env = append(env, "GOMAXPROCS=1")
+					}
+					env = append(env, auxEnv...)
+					r, err := runWorker(scratch, idx, workerRun{bin: p.bin, testMode: p.testMode, env: env,
+						args: []string{"-check", id, "-tier", tier, "-shard", strconv.Itoa(v.Shard), "-nshards", strconv.Itoa(nshards),
+							"-deadline", strconv.Itoa(deadline), "-seed", strconv.FormatInt(seed, 10), "-until-sig", v.Sig},
+						timeout: time.Duration(deadline)*time.Second + 120*time.Second})
+					okHist = false
+					if err == nil {
+						for _, rv := range r.Violations {
+							if rv.Sig == v.Sig {
+								okHist = true
+							}
+						}
+					}
+				}
+				if okHist {
+					v.NeedsHistory = true
+					okAll = true
+				}
 			}
 		}
 		if okAll {
@@ -657,10 +699,18 @@ func doCheck(id, tier string, keep bool) int {
 		nviol++
 		exit = 1
 		rp := filepath.Join(outBase(), "replays", id, sanitize(v.Sig)+".json")
-		rb, _ := json.MarshalIndent(map[string]any{"property": id, "sig": v.Sig, "clause": v.Clause, "detail": v.Detail, "case": v.Case, "tier": tier}, "", " ")
+		rm := map[string]any{"property": id, "sig": v.Sig, "clause": v.Clause, "detail": v.Detail, "case": v.Case, "tier": tier}
+		if v.NeedsHistory {
+			rm["history"] = map[string]any{"tier": tier, "shard": v.Shard, "nshards": nshards, "pass": v.Pass, "until_sig": v.Sig,
+				"note": "the case fails only after the cases that precede it in this worker shard (process-wide state left behind by the library); replay re-runs the shard up to it"}
+		}
+		rb, _ := json.MarshalIndent(rm, "", " ")
 		os.WriteFile(rp, rb, 0o644)
 		fmt.Printf("VIOLATION property=%s replay=%s\n", id, rp)
 		fmt.Printf("  clause=%s sig=%s\n  %s\n", v.Clause, v.Sig, firstLines(v.Detail, 6))
+		if v.NeedsHistory {
+			fmt.Printf("  (depends on the cases that precede it in worker shard %d/%d: reproduced twice by re-running that shard in a fresh process)\n", v.Shard, nshards)
+		}
 	}
 
 	// evidence
@@ -804,6 +854,13 @@ func doReplay(file string) int {
 	var wrap struct {
 		Property string          `json:"property"`
 		Case     json.RawMessage `json:"case"`
+		History  *struct {
+			Tier     string `json:"tier"`
+			Shard    int    `json:"shard"`
+			NShards  int    `json:"nshards"`
+			Pass     string `json:"pass"`
+			UntilSig string `json:"until_sig"`
+		} `json:"history"`
 	}
 	if err := json.Unmarshal(raw, &wrap); err != nil || wrap.Property == "" {
 		fatal("replay file must be {\"property\":..., \"case\":...}")
@@ -830,6 +887,27 @@ func doReplay(file string) int {
 	bin, _, err := buildWorker(scratch, bo)
 	if err != nil {
 		fatal("%v", err)
+	}
+	if wrap.History != nil && wrap.History.UntilSig != "" {
+		h := wrap.History
+		env := []string{"VERIF_PASS=" + h.Pass, "VERIF_BIN=" + bin}
+		if spec.gomax1 {
+			env = append(env, "GOMAXPROCS=1")
+		}
+		r, err := runWorker(scratch, 1, workerRun{bin: bin, testMode: h.Pass == "testmode", env: env,
+			args: []string{"-check", wrap.Property, "-tier", h.Tier, "-shard", strconv.Itoa(h.Shard), "-nshards", strconv.Itoa(h.NShards), "-deadline", "3000", "-until-sig", h.UntilSig},
+			timeout: 3200 * time.Second})
+		if err != nil {
+			fatal("history replay: %v", err)
+		}
+		for _, v := range r.Violations {
+			if v.Sig == h.UntilSig {
+				fmt.Printf("VIOLATION property=%s replay=%s\n  clause=%s sig=%s\n  %s\n", wrap.Property, file, v.Clause, v.Sig, v.Detail)
+				return 1
+			}
+		}
+		fmt.Printf("replay of %s (shard %d/%d up to the case): property %s holds\n", file, h.Shard, h.NShards, wrap.Property)
+		return 0
 	}
 	r, err := replayCase(scratch, bin, wrap.Property, wrap.Case, 0, spec)
 	if err != nil {
